@@ -724,6 +724,14 @@ Idle(a, e) ==
              "not-delivered-without-a-flush", {[n |-> x.n, r |-> x.r] : x \in late}, k)
   ELSE a1
 
+\* ids the library handed out to distinct spans (many short-lived threads): non-zero and pairwise distinct (C02)
+Ids(a, e) ==
+  LET S == Rng(e.ids)
+      a1 == IF Zero \in S THEN Viol(a, "C02", "zero-id", e.threads) ELSE a IN
+  IF Cardinality(S) # Len(e.ids)
+  THEN Viol(a1, "C02", "span-ids-not-distinct", [spans |-> Len(e.ids), distinct |-> Cardinality(S), threads |-> e.threads])
+  ELSE a1
+
 \* at quiescence (no call in progress, two full cycles since the last one): the collector keeps an
 \* entry only for sampled roots that are still open, and no receiver of an exited thread (C08)
 Stats(a, e) ==
@@ -834,6 +842,7 @@ AbsStep(a, e) ==
     [] e.ev = "drain"     -> Drain(a, e)
     [] e.ev = "stats"     -> Stats(a, e)
     [] e.ev = "idle"      -> Idle(a, e)
+    [] e.ev = "ids"       -> Ids(a, e)
     [] OTHER              -> a
 
 RECURSIVE AbsRun(_, _, _)
